@@ -64,7 +64,31 @@ theorem attempt_pool_irrelevant (cfg : Cfg) (rq : Req) (sv : Srv) (c : Conn)
     · simp [hc]
   · rfl
 
-/-- the response bytes of an exchange are one message: reading them leaves nothing -/
+/-- a skipped body that is no body (bodiless status, or `Content-Length: 0`): skipping leaves what reading leaves -/
+theorem skip_rest_eq (dn : Bool) (maxBody : Nat) (e : End) (s : Bytes) (r : Result)
+    (h : readResponseSkip true dn maxBody e s = .ok r)
+    (hb : mustSkipCL r.head.status = true ∨ r.head.cl = 0) :
+    ∃ r', readResponseSkip false dn maxBody e s = .ok r' ∧ r'.rest = r.rest := by
+  unfold readResponseSkip at h ⊢
+  cases hh : readHeaders dn e s with
+  | error x => simp [hh] at h
+  | ok p =>
+    obtain ⟨hd, s1⟩ := p
+    simp only [hh, if_true, Except.ok.injEq] at h
+    subst h
+    simp only at hb ⊢
+    simp only [Bool.false_eq_true, if_false]
+    unfold readBodyPart
+    simp only
+    rcases hb with hb | hb
+    · simp [hb]
+    · by_cases hm : mustSkipCL hd.status = true
+      · simp [hm]
+      · simp only [hm, if_false, hb]
+        simp [takeBody, takeN]
+
+/-- the response bytes of an exchange are one message: reading them (as the client does when the application has
+not asked to skip the body) leaves nothing -/
 def SelfDelimited (cfg : Cfg) (rq : Req) (sv : Srv) : Prop :=
   ∀ r, readResponseSkip rq.skipBody cfg.disableNorm cfg.maxBody (endOf (serve {} sv)) sv.resp = .ok r → r.rest = []
 
@@ -82,12 +106,38 @@ theorem attempt_fresh_clean (cfg : Cfg) (rq : Req) (sv : Srv) (inPool : Bool) (h
     · rename_i r hr
       split at hc
       · simp at hc
-      · simp only [Option.some.injEq] at hc
+      · rename_i hcl
+        simp only [Option.some.injEq] at hc
         rw [← hc]
         simp only
-        apply hs r
-        rw [hp']
-        exact hr
+        rw [← hp'] at hr
+        cases ha : rq.appSkip with
+        | false =>
+          rw [ha, Bool.or_false] at hr
+          exact hs r hr
+        | true =>
+          cases hk : rq.skipBody with
+          | true =>
+            rw [hk, Bool.true_or] at hr
+            unfold SelfDelimited at hs
+            rw [hk] at hs
+            exact hs r hr
+          | false =>
+            rw [hk, ha] at hr
+            -- pooled although the application skipped the body: there was no body
+            have hnb : mustSkipCL r.head.status = true ∨ r.head.cl = 0 := by
+              simp only [bodyUnread, ha, hk, Bool.not_false, Bool.true_and, Bool.or_eq_true, not_or,
+                Bool.and_eq_true, Bool.not_eq_true', bne_iff_ne, ne_eq, not_and, Bool.not_eq_false,
+                Decidable.not_not] at hcl
+              by_cases hm : mustSkipCL r.head.status = true
+              · exact Or.inl hm
+              · exact Or.inr (hcl.2 (by simpa using hm))
+            have hr2 : readResponseSkip true cfg.disableNorm cfg.maxBody (endOf (serve {} sv)) sv.resp = .ok r := hr
+            obtain ⟨r', hr', hrest⟩ := skip_rest_eq _ _ _ _ r hr2 hnb
+            unfold SelfDelimited at hs
+            rw [hk] at hs
+            rw [← hrest]
+            exact hs r' hr'
 
 theorem exchange_eq_alone (cfg : Cfg) (st : St) (rq : Req) (sv : Srv) (hc : Clean st)
     (h : rq.retryable = true ∨ (sv.resp ≠ [] ∧ ∀ c, st.idle = some c → c.peerClosed = false)) :
@@ -155,6 +205,28 @@ theorem exchange_eq_alone (cfg : Cfg) (st : St) (rq : Req) (sv : Srv) (hc : Clea
         rw [hco]
         exact hcc
 
+/-- a response whose body the application had skipped never takes its connection back to the pool -/
+theorem attempt_unread_closes (cfg : Cfg) (rq : Req) (sv : Srv) (c : Conn) (inPool : Bool) (r : Result)
+    (h : (attempt cfg rq sv c inPool).2 = .ok r) (hb : bodyUnread rq r.head = true) :
+    (attempt cfg rq sv c inPool).1 = none := by
+  unfold attempt at h ⊢
+  simp only at h ⊢
+  split
+  · split <;> rfl
+  · rename_i b s hp
+    simp only [hp] at h
+    split
+    · rfl
+    · rename_i r0 hr
+      simp only [hr] at h
+      split
+      · rfl
+      · rename_i hcc
+        have h' : r0 = r := by
+          split at h <;> simpa using h
+        subst h'
+        simp [hb] at hcc
+
 theorem run_eq_alone (cfg : Cfg) : ∀ (xs : List (Req × Srv)) (st : St), Clean st →
     (∀ x ∈ xs, x.1.retryable = true ∧ SelfDelimited cfg x.1 x.2) →
     (run cfg st xs).map (·.2) = xs.map (fun x => alone cfg x.1 x.2)
@@ -164,6 +236,25 @@ theorem run_eq_alone (cfg : Cfg) : ∀ (xs : List (Req × Srv)) (st : St), Clean
     have h1 := exchange_eq_alone cfg st rq sv hc (Or.inl hh.1)
     simp only [run, List.map_cons]
     rw [h1.1, run_eq_alone cfg t _ (h1.2 hh.2) (fun x hm => hx x (List.mem_cons_of_mem _ hm))]
+
+/-- after `Do`, whatever the passes were (one or two, returning a response or failing), `resp.SkipBody` is what `Do`
+found, i.e. what the application set -/
+theorem skipAfterDo_eq (cfg : Cfg) (st : St) (rq : Req) (sv : Srv) : skipAfterDo cfg st rq sv = rq.appSkip := by
+  unfold skipAfterDo
+  cases st.idle with
+  | none => rfl
+  | some c0 =>
+    simp only [skipAfterPass]
+    split <;> rfl
+
+/-- one Response object for a whole sequence: each call finds exactly what the application has set so far - never
+a mark of the client, whatever the methods (HEAD included), the outcomes and the retries were -/
+theorem foundFlags_eq (cfg : Cfg) : ∀ (xs : List (Bool × Req × Srv)) (st : St) (flag : Bool),
+    foundFlags cfg st flag xs = setSoFar flag (xs.map (·.1))
+  | [], _, _ => rfl
+  | (set, rq, sv) :: t, st, flag => by
+    simp only [foundFlags, List.map_cons, setSoFar]
+    rw [skipAfterDo_eq, foundFlags_eq cfg t]
 
 theorem clean_init : Clean {} := by
   intro c h; simp at h
